@@ -1,7 +1,7 @@
 (* Props/C06.v — Documented buffer bound suffices; lack of space is reported, never waited on.
    Only statements.  Models: Parser/ReqModel.v (aligned_bufsize = Config::aligned_bufsize, lib.rs;
    parse = request::Parser::parse). *)
-From FV Require Import Base.Bytes Gen.Generated Parser.ReqModel Parser.BufsizeProofs.
+From FV Require Import Base.Bytes Gen.Generated Codec.NV Parser.ReqModel Parser.ReqWire Parser.ReqTargets Parser.ReqFinal Parser.BufsizeProofs.
 
 (* the effective buffer is never smaller than the configured size nor than 24, is a multiple of 8,
    and is the least such value (so it is < max 25 (b+8)) — for every configurable size *)
@@ -19,6 +19,42 @@ Proof. exact bufsize_overflow_arm. Qed.
 (* a fresh parser offers the whole effective buffer (>= 24 bytes) *)
 Theorem C06_fresh_parser : forall b, input_space (new_parser b) = aligned_bufsize b.
 Proof. exact new_parser_space. Qed.
+
+(* the documented bound suffices: a well-formed preamble whose pairs satisfy |name|+|value|+13 <= B
+   is parsed to completion (never StuckOnInput) under EVERY segmentation and EVERY read schedule *)
+Theorem C06_sufficient : forall (norm : bytes -> bytes) (maxc : N) B w pairs trailing sched,
+  B < SIZE_LIMIT - 8 ->
+  preamble_ok w -> Forall pair_ok pairs -> nv_write_all pairs = Some (preamble_payload w) ->
+  Forall (pair_fits (aligned_bufsize B)) pairs -> preamble_fits (aligned_bufsize B) w ->
+  bytes_ok trailing -> len (enc_rcds (preamble_rcds w) ++ trailing) < SIZE_LIMIT ->
+  exists p unfed o r, run_schedule norm maxc (new_parser B) (enc_rcds (preamble_rcds w) ++ trailing) sched = SOk p true unfed o /\
+                      st p = Done r.
+Proof.
+  intros norm maxc B w pairs trailing sched H1 H2 H3 H4 H5 H6 H7 H8.
+  destruct (F_preamble_exact norm maxc B w pairs trailing sched H1 H2 H3 H4 H5 H6 H7 H8) as [p [u [E [S _]]]].
+  exists p, u, (preamble_replies maxc w), (mkReq (w_id w) (w_role w) (w_flags w) (env_log norm pairs)). split; assumption.
+Qed.
+
+(* a parser that has not finished always offers a non-empty input buffer ... *)
+Theorem C06_reported : forall (norm : bytes -> bytes) (maxc : N) p new p' o,
+  parser_ok p -> bytes_ok new -> len new <= input_space p ->
+  parse norm maxc p new = POk p' false o -> 0 < input_space p'.
+Proof. exact F_parse_reported. Qed.
+
+(* ... and when it cannot, that very call reports done (StuckOnInput, unless it really finished) *)
+Theorem C06_stuck_same_call : forall (norm : bytes -> bytes) (maxc : N) p new p' d o,
+  parser_ok p -> bytes_ok new -> len new <= input_space p ->
+  parse norm maxc p new = POk p' d o -> input_space p' = 0 -> is_final (st p) = false ->
+  d = true /\ (st p' = Fatal EStuckOnInput \/ is_final (st p') = true).
+Proof. exact F_parse_stuck. Qed.
+
+(* for information: the bound on the encoded pair is tight - a pair whose encoding is B+1 bytes,
+   inside one record, does get stuck (B = 24: name 11 + value 12 bytes, 2 length bytes) *)
+Example C06_tight_witness :
+  exists p u o, run_schedule (fun b => b) 1 (new_parser 24)
+     ([1; 1; 0; 1; 0; 8; 0; 0; 0; 1; 0; 0; 0; 0; 0; 0] ++ [1; 4; 0; 1; 0; 25; 0; 0] ++ [11; 12] ++ repeatN 65 11 ++ repeatN 66 12
+      ++ [1; 4; 0; 1; 0; 0; 0; 0]) [] = SOk p true u o /\ st p = Fatal EStuckOnInput.
+Proof. vm_compute. do 3 eexists. split; reflexivity. Qed.
 
 Example C06_example : aligned_bufsize 8192 = 8192 /\ aligned_bufsize 0 = 24 /\ aligned_bufsize 25 = 32 /\ aligned_bufsize 8193 = 8200.
 Proof. repeat split; reflexivity. Qed.
